@@ -482,6 +482,11 @@ VARIANTS = [
          old="for (n, f) in filter_t.iter_mut().enumerate().take(fft_size_in) {", new="for (n, f) in filter_t.iter_mut().enumerate().skip(fft_size_in) {"),
     dict(property="C01", name="fft-output-loop-skips-first-frame", file=SYN, expect="the output loop",
          old="for (n, item) in wave_out.iter_mut().enumerate().take(self.fft_size_out) {", new="for (n, item) in wave_out.iter_mut().enumerate().skip(1).take(self.fft_size_out) {"),
+    dict(property="C03", name="fft-filter-spectrum-one-bin-too-long", file=SYN, expect="work-buffer-lengths",
+         old="let mut filter_f: Vec<Complex<T>> = vec![Complex::zero(); fft_size_in + 1];", new="let mut filter_f: Vec<Complex<T>> = vec![Complex::zero(); fft_size_in + 2];"),
+    dict(property="C01", name="quadratic-wrap-below-live-at-zero", file=INTERP, expect="get_nearest_times_3",
+         edits=[("    for (idx, sub) in (0..3).enumerate() {\n        index = start;\n        subindex = frac + sub;\n        if subindex < 0 {",
+                 "    for (idx, sub) in (0..3).enumerate() {\n        index = start;\n        subindex = frac + sub;\n        if subindex <= 0 {")]),
 ]
 
 
